@@ -11,6 +11,7 @@ pub type Defs = HashMap<String, Option<Define>>;
 
 thread_local! {
     static LAST_PANIC: RefCell<String> = RefCell::new(String::new());
+    static IN_GUARD: std::cell::Cell<u32> = std::cell::Cell::new(0);
 }
 
 /// Install a process-wide panic hook that records the message instead of printing it.
@@ -25,12 +26,19 @@ pub fn quiet_panics() {
         };
         let loc = info.location().map(|l| format!("{}:{}", l.file(), l.line())).unwrap_or_default();
         let _ = LAST_PANIC.try_with(|p| *p.borrow_mut() = format!("{} @ {}", msg, loc));
+        // a panic outside a guarded library call is a bug of the harness itself: say so
+        if IN_GUARD.try_with(|g| g.get()).unwrap_or(0) == 0 {
+            eprintln!("svcheck: harness panic: {} @ {}", msg, loc);
+        }
     }));
 }
 
 /// Run `f`, turning a panic into Err(message @ location).
 pub fn guarded<T>(f: impl FnOnce() -> T) -> Result<T, String> {
-    match catch_unwind(AssertUnwindSafe(f)) {
+    IN_GUARD.with(|g| g.set(g.get() + 1));
+    let r = catch_unwind(AssertUnwindSafe(f));
+    IN_GUARD.with(|g| g.set(g.get() - 1));
+    match r {
         Ok(v) => Ok(v),
         Err(_) => Err(LAST_PANIC.with(|p| p.borrow().clone())),
     }
@@ -196,16 +204,18 @@ pub fn thread_dir(prop: &str) -> PathBuf {
 
 pub use sv_parser_parser::verif::{Policy, Stats};
 
-/// run `f` with this thread's memo table re-created under `policy` (and the diagnostic
-/// sound-key mode if asked), then restore the shipped configuration
+/// run `f` with this thread's memo table re-created under `policy` (and, if `sound_key`, the
+/// diagnostic mode in which flagged spans bypass the table), then restore the shipped configuration
 pub fn with_policy<T>(policy: Policy, sound_key: bool, f: impl FnOnce() -> T) -> (T, Stats) {
     use sv_parser_parser::verif as v;
     v::set_packrat_policy(policy);
-    v::set_sound_key(sound_key);
+    // diagnostic mode: results computed under a live left-recursion flag stay out of the table
+    v::set_bypass_flagged(sound_key);
     v::reset_stats();
     let r = guarded(f);
     let st = v::packrat_stats();
     v::set_sound_key(false);
+    v::set_bypass_flagged(false);
     v::set_packrat_policy(Policy::Fifo(Some(1024)));
     v::reset_stats();
     match r {
